@@ -21,11 +21,36 @@ type ReadPlan struct {
 	ErrAt       int64 // inject ErrInjected once this many bytes were delivered; < 0: never
 	ErrWithData bool  // deliver the last bytes together with the error (n > 0, err != nil)
 	OpenErr     bool  // fail the open
+	// Rng, when set, replaces the shared tape as the source of this plan's draws. Worlds set it in
+	// ModeFree so that readers do not synchronise with each other through the tape's mutex.
+	Rng *LocalRand
+}
+
+// LocalRand is a private splitmix64 stream (seeded from the tape during set-up).
+type LocalRand struct{ state uint64 }
+
+// NewLocalRand draws a seed from the tape's fault stream.
+func NewLocalRand(t *Tape) *LocalRand {
+	return &LocalRand{state: uint64(t.F(1<<30))<<32 | uint64(t.F(1<<30))}
+}
+
+// N returns a value in [0,n).
+func (r *LocalRand) N(n int) int {
+	if n <= 1 {
+		return 0
+	}
+	r.state += 0x9e3779b97f4a7c15
+	z := r.state
+	z = (z ^ (z >> 30)) * 0xbf58476d1ce4e5b9
+	z = (z ^ (z >> 27)) * 0x94d049bb133111eb
+	z ^= z >> 31
+	return int((z >> 16) % uint64(n))
 }
 
 // FSEvent is one entry of the file-system log.
 type FSEvent struct {
 	Seq  int
+	T    time.Duration // fake time since the start of the run
 	G    int
 	Op   string // open, open-fail, read, read-err, seek, close, stat
 	Path string
@@ -46,16 +71,22 @@ type FS struct {
 func (fs *FS) SetPlan(path string, p *ReadPlan) { fs.plans[path] = p }
 
 func (s *Sim) fsLog(op, path string, n int, off int64) {
+	if s.Opts.Mode == ModeFree {
+		return
+	}
 	g := -1
 	if x := s.me(); x != nil {
 		g = x.ID
 	}
 	s.mu.Lock()
-	s.FS.Log = append(s.FS.Log, FSEvent{Seq: s.Steps, G: g, Op: op, Path: path, N: n, Off: off})
+	s.FS.Log = append(s.FS.Log, FSEvent{Seq: s.Steps, T: time.Since(s.start), G: g, Op: op, Path: path, N: n, Off: off})
 	s.mu.Unlock()
 }
 
 func (s *Sim) fired(kind string) {
+	if s.Opts.Mode == ModeFree {
+		return
+	}
 	s.mu.Lock()
 	if s.FS.Fired == nil {
 		s.FS.Fired = map[string]int64{}
@@ -65,6 +96,13 @@ func (s *Sim) fired(kind string) {
 }
 
 func (s *Sim) plan(path string) *ReadPlan {
+	if s.Opts.Mode == ModeFree {
+		// plans are installed before the run starts and are read-only afterwards
+		if p, ok := s.FS.plans[path]; ok {
+			return p
+		}
+		return s.FS.Default
+	}
 	s.mu.Lock()
 	defer s.mu.Unlock()
 	if p, ok := s.FS.plans[path]; ok {
@@ -130,18 +168,25 @@ func planRead(s *Sim, p *ReadPlan, off *int64, failed *bool, path string, buf []
 	if *failed {
 		return 0, ErrInjected
 	}
-	t := s.Tape
-	if p.LatPermille > 0 && t.F(1000) < p.LatPermille {
-		ms := 1 + t.F(p.LatMaxMs)
-		s.fired("read-latency")
-		time.Sleep(time.Duration(ms) * time.Millisecond)
+	F := s.Tape.F
+	if p.Rng != nil {
+		F = p.Rng.N
 	}
-	if p.Stall && t.F(8) == 7 {
+	if p.LatPermille > 0 && F(1000) < p.LatPermille {
+		ms := 1 + F(p.LatMaxMs)
+		s.fired("read-latency")
+		s.AddInjectedLat(time.Duration(ms) * time.Millisecond)
+		time.Sleep(time.Duration(ms) * time.Millisecond)
+		// several sleepers may wake at the same fake instant and would then run in parallel:
+		// go back through the scheduler before drawing from the tape again
+		Yield("fs.latency")
+	}
+	if p.Stall && F(8) == 7 {
 		s.fired("read-stall-0-nil")
 		return 0, nil
 	}
 	if p.Chunk && len(buf) > 1 {
-		switch t.F(4) {
+		switch F(4) {
 		case 1:
 			buf = buf[:1]
 			s.fired("read-chunk-1")
@@ -150,14 +195,14 @@ func planRead(s *Sim, p *ReadPlan, off *int64, failed *bool, path string, buf []
 			if len(buf) < m {
 				m = len(buf)
 			}
-			buf = buf[:1+t.F(m)]
+			buf = buf[:1+F(m)]
 			s.fired("read-chunk-small")
 		case 3:
 			m := len(buf)
 			if m > 4096 {
 				m = 4096
 			}
-			buf = buf[:1+t.F(m)]
+			buf = buf[:1+F(m)]
 			s.fired("read-chunk-any")
 		}
 	}
